@@ -73,6 +73,9 @@ class Region:
         self.carried = []   # (variable, site): a scalar read in one iteration of a worksharing loop that an earlier iteration wrote
         self.reductions = []
         self.schedule = None
+        self.prot = None      # ("atomic",) / ("critical", name) while inside such a construct
+        self.protected = {}   # effect number -> protection
+        self.protected_scalar_writes = []
 
 
 class OpsDomain(SymDomain):
@@ -112,6 +115,8 @@ class OpsDomain(SymDomain):
             return
         if arr.id in r.private:
             return
+        if getattr(r, "prot", None) is not None:
+            r.protected[len(r.effects)] = r.prot
         r.effects.append((arr.id, arr.name, idx, w, site, r.group, r.cur))
 
     def write(self, cell, v, e, fr):
@@ -120,7 +125,12 @@ class OpsDomain(SymDomain):
             r.iter_written.add(cell.serial)
         if r is not None and self.record and getattr(cell, "serial", 1 << 60) < r.serial0:
             # a scalar that exists outside the region is written inside it
-            r.shared_writes.append(("%s#%d" % (cell.name, cell.serial), ir.locstr(e), r.group, r.cur))
+            if getattr(r, "prot", None) is not None:
+                # under atomic / in a critical section: no race among such writers (C11); the order of the updates is the
+                # schedule's, which matters for a floating-point accumulation (C12)
+                r.protected_scalar_writes.append(("%s#%d" % (cell.name, cell.serial), ir.locstr(e), r.group, r.cur, isinstance(v, (int, bool)), r.prot))
+            else:
+                r.shared_writes.append(("%s#%d" % (cell.name, cell.serial), ir.locstr(e), r.group, r.cur))
         cell.set(v)
 
     def new_array(self, name, n, elem):
@@ -178,7 +188,44 @@ class OpsDomain(SymDomain):
             if self.region is not None:
                 self.region.group += 1
             return
-        if d in ("single", "master", "critical", "atomic", "task", "taskwait", "taskgroup", "sections", "section", "simd"):
+        if d in ("single", "master"):
+            # executed by one thread of the team: one unit of work of its own; `single` ends with a barrier unless nowait
+            if self.region is None:
+                it.exec(s["body"], fr)
+                return
+            r = self.region
+            if r.cur is not None:
+                raise AnalysisBroken("'%s' nested in a worksharing loop at %s" % (d, ir.locstr(s)))
+            r.singles = getattr(r, "singles", 0) + 1
+            r.cur = (d, r.singles)
+            try:
+                it.exec(s["body"], fr)
+            finally:
+                r.cur = None
+            if d == "single" and self.clause(s, "nowait") is None:
+                r.group += 1
+            return
+        if d in ("atomic", "critical"):
+            # mutual exclusion: two accesses under the same kind of protection (atomic; critical sections of one name) do not
+            # race with each other; they still race with unprotected accesses, and the *order* of the protected updates is
+            # the schedule's (C12 R-C12-1 counts them as several writers of one element)
+            if self.region is None:
+                it.exec(s["body"], fr)
+                return
+            r = self.region
+            if getattr(r, "prot", None) is not None:
+                raise AnalysisBroken("nested atomic/critical at %s" % ir.locstr(s))
+            r.prot = ("atomic",) if d == "atomic" else ("critical", s.get("name") or "")
+            try:
+                it.exec(s["body"], fr)
+            finally:
+                r.prot = None
+            return
+        if d == "simd":
+            # asserts that the iterations are independent; inside one unit of work it is an ordinary loop
+            it.exec(s["body"], fr)
+            return
+        if d in ("task", "taskwait", "taskgroup", "sections", "section"):
             self.unknown_omp.append((d, ir.locstr(s)))
             raise AnalysisBroken("OpenMP construct '%s' at %s is outside the happens-before model" % (d, ir.locstr(s)))
         raise AnalysisBroken("OpenMP directive '%s' at %s not modelled" % (d, ir.locstr(s)))
@@ -428,24 +475,40 @@ def races(region, limit=5):
     """definite conflicts inside one parallel region: two effects on the same element, at least one write, in the same
     barrier group, from different iterations of worksharing loops (or one from replicated code)"""
     by_elem = {}
-    for (aid, name, idx, w, site, group, cur) in region.effects:
-        by_elem.setdefault((aid, idx, group), []).append((w, site, cur, name))
+    prot = getattr(region, "protected", {})
+    for n, (aid, name, idx, w, site, group, cur) in enumerate(region.effects):
+        by_elem.setdefault((aid, idx, group), []).append((w, site, cur, name, prot.get(n)))
     out = []
     for (aid, idx, group), effs in by_elem.items():
         writers = [x for x in effs if x[0]]
         if not writers:
             continue
-        units_w = set(x[2] for x in writers)
-        units_all = set(x[2] for x in effs)
         conflict = None
-        if None in units_w:
-            # replicated write: every thread executes it -> races with itself on any team >= 2
-            conflict = ([x for x in writers if x[2] is None][0], [x for x in writers if x[2] is None][0])
-        elif len(units_all) > 1:
-            wu = writers[0]
-            other = [x for x in effs if x[2] != wu[2]]
-            if other:
-                conflict = (wu, other[0])
+        if not any(x[4] for x in effs):
+            units_w = set(x[2] for x in writers)
+            units_all = set(x[2] for x in effs)
+            if None in units_w:
+                # replicated write: every thread executes it -> races with itself on any team >= 2
+                conflict = ([x for x in writers if x[2] is None][0], [x for x in writers if x[2] is None][0])
+            elif len(units_all) > 1:
+                wu = writers[0]
+                other = [x for x in effs if x[2] != wu[2]]
+                if other:
+                    conflict = (wu, other[0])
+        else:
+            # some accesses are atomic / inside a critical section: a pair conflicts unless both carry the same protection
+            for wu in writers:
+                for o in effs:
+                    if o is wu and wu[2] is not None:
+                        continue
+                    if o[2] == wu[2] and wu[2] is not None:
+                        continue      # same unit of work: program order
+                    if wu[4] is not None and wu[4] == o[4]:
+                        continue      # mutually exclusive
+                    conflict = (wu, o)
+                    break
+                if conflict:
+                    break
         if conflict:
             a, b = conflict
             out.append({"array": a[3], "index": idx, "group": group, "a": {"write": a[0], "site": a[1], "unit": a[2]},
